@@ -77,14 +77,10 @@ def scenario_by_name(name):
 
 # ---- one execution ------------------------------------------------------------------------------
 def run_prelude(w, prelude):
+    """warm the caches: run in the scheduler thread (never scheduled, its connection is kept)"""
     if not prelude: return None
     from vf.props import _c22_world as W
-    out = []
-    def body():
-        out.append(W.run_program(w, prelude))
-        w.db.disconnect()
-    t = threading.Thread(target=body); t.start(); t.join()
-    return out[0]
+    return W.run_program(w, prelude)
 
 def execute(w, sc, choices, only=None):
     """fresh caches, fresh rows, prelude, then the scenario's threads (or only thread `only`) under
@@ -134,7 +130,9 @@ def switch_summary(ex):
         cur = nxt
     return out
 
+_REFS = {}
 def references(w, sc):
+    if sc['name'] in _REFS: return _REFS[sc['name']]
     ref = []
     for i in range(len(sc['threads'])):
         ex = execute(w, sc, [], only=i)
@@ -144,52 +142,72 @@ def references(w, sc):
         if ex.status != 'ok' or ex.errors[0] is not None:
             raise core.HarnessError('C22: reference run of %s thread %d failed: %r %r' % (sc['name'], i, ex.status, ex.errors))
         ref.append((ex.results[0], ex.thread_labels(0)))
+    _REFS[sc['name']] = ref
     return ref
 
-def explore(args):
-    """pmap worker: one scenario (optionally one first-decision subtree) -> Sub dump + numbers"""
-    name, tier, bound, root, seed = args
-    from vf.props import _c22_sched as S, _c22_world as W
-    t0, c0 = time.time(), time.process_time()
-    sub = core.Sub()
-    w = W.world()
-    sc = scenario_by_name(name)
-    ref = references(w, sc)
-    for r, _ in ref:
-        for step in r:
-            sub.count('reference_steps_' + step[0])
-    inval = invalidation_labels(w)
-    outcomes, stats = {}, dict(switch_exec=0, path_diff=0, both_inval=0, points=0)
-    def visit(ex):
+class Visitor(object):
+    def __init__(self, w, sc):
+        self.w, self.sc, self.sub = w, sc, core.Sub()
+        self.ref = references(w, sc)
+        self.inval = invalidation_labels(w)
+        self.outcomes = set()
+        self.stats = dict(switch_exec=0, path_diff=0, both_inval=0, points=0)
+    def __call__(self, ex):
+        sub, sc, ref, stats = self.sub, self.sc, self.ref, self.stats
         stats['points'] = max(stats['points'], len(ex.trace))
         if ex.switch_in:
             stats['switch_exec'] += 1
             for fn, n in ex.switch_in.items(): sub.count('switches_inside_' + fn, n)
         labels = [ex.thread_labels(i) for i in range(ex.n)]
         if any(labels[i] != ref[i][1] for i in range(ex.n)): stats['path_diff'] += 1
-        if sum(1 for l in labels if inval.intersection(l)) >= 2: stats['both_inval'] += 1
-        key = json.dumps(outcome(ex), sort_keys=True, default=repr)
-        outcomes[key] = outcomes.get(key, 0) + 1
+        if sum(1 for l in labels if self.inval.intersection(l)) >= 2: stats['both_inval'] += 1
+        self.outcomes.add(hashlib.sha1(json.dumps(outcome(ex), sort_keys=True, default=repr).encode()).hexdigest()[:12])
         for sig, msg in compare(sc, ex, ref):
             first = sig not in sub.found
-            case = dict(scenario=name, choices=ex.taken(), preemptions=ex.preemptions(), switches=switch_summary(ex),
+            case = dict(scenario=sc['name'], choices=ex.taken(), preemptions=ex.preemptions(), switches=switch_summary(ex),
                         results=ex.results, alone=[r for r, _ in ref], signature=sig)
             sub.violation(sig, case, msg)
-            if first:      # re-execute from the recorded choice list: must reproduce identically
+            if first:      # re-execute from the recorded choice list: must reproduce identically, twice
                 for _ in range(2):
-                    again = execute(w, sc, ex.taken())
+                    again = execute(self.w, sc, ex.taken())
                     if again.trace != ex.trace or outcome(again) != outcome(ex):
                         raise core.HarnessError('C22: violation %s did not reproduce from its choice list' % sig)
                 sub.count('violations_replayed_identically')
+    def result(self, exp, t0, c0, **extra):
+        return dict(sub=self.sub.dump(), name=self.sc['name'], executions=exp.executions, edges=exp.edges,
+                    by_pre=exp.by_preemptions, outcomes=sorted(self.outcomes), stats=self.stats,
+                    wall=time.time() - t0, cpu=time.process_time() - c0, **extra)
+
+def expand(args):
+    """pmap worker, phase 1: the executions that start with each thread (no further choice), and the
+    list of their children = disjoint subtrees to be explored in phase 2"""
+    name, bound = args
+    from vf.props import _c22_sched as S, _c22_world as W
+    t0, c0 = time.time(), time.process_time()
+    w = W.world()
+    sc = scenario_by_name(name)
+    v = Visitor(w, sc)
+    for r, _ in v.ref:
+        for step in r: v.sub.count('reference_steps_' + step[0])
     exp = S.Explorer(lambda choices: execute(w, sc, choices), bound)
-    exp.run(visit, roots=[root] if root is not None else None)
-    # determinism self-check on a few complete schedules: replay twice, identical trace
-    sub.sample(dict(scenario=name, bound=bound, executions=exp.executions, by_preemptions=exp.by_preemptions,
-                    distinct_outcomes=len(outcomes), longest_trace=stats['points'],
-                    alone_trace_lengths=[len(l) for _, l in ref]))
-    return dict(sub=sub.dump(), name=name, executions=exp.executions, edges=exp.edges, by_pre=exp.by_preemptions,
-                outcomes=len(outcomes), stats=stats, wall=time.time() - t0, cpu=time.process_time() - c0,
-                described=w.points.described)
+    children = []
+    for first in range(len(sc['threads'])):
+        children += exp.expand([first], v)
+    v.sub.sample(dict(scenario=name, prelude=sc['prelude'], threads=sc['threads'], bound=bound,
+                      alone_results=[r for r, _ in v.ref], alone_trace_lengths=[len(l) for _, l in v.ref]))
+    return v.result(exp, t0, c0, children=children, described=w.points.described)
+
+def explore(args):
+    """pmap worker, phase 2: complete exploration of the subtrees of `items`"""
+    name, bound, items = args
+    from vf.props import _c22_sched as S, _c22_world as W
+    t0, c0 = time.time(), time.process_time()
+    w = W.world()
+    sc = scenario_by_name(name)
+    v = Visitor(w, sc)
+    exp = S.Explorer(lambda choices: execute(w, sc, choices), bound)
+    exp.run(v, [tuple(it) for it in items])
+    return v.result(exp, t0, c0)
 
 def invalidation_labels(w):
     """labels of the line(s) of Query._get_translator that drop a stale translator"""
@@ -334,38 +352,55 @@ def smoke(args):
 # ---- driver ----------------------------------------------------------------------------------------
 def job(item):
     kind = item[0]
+    if kind == 'expand': return expand(item[1:])
     if kind == 'explore': return explore(item[1:])
     if kind == 'matrix': return matrix(item[1:])
     if kind == 'smoke': return smoke(item[1:])
     raise AssertionError(kind)
 
+def chunks_for(tier, sc, bound):
+    if bound <= 1: return 1
+    if tier == 'quick': return 4
+    return 16 if bound >= 3 or len(sc['threads']) == 3 else 6
+
 def run(ctx):
     scenarios = list(SCENARIOS) + ([] if ctx.quick else list(SCENARIOS3))
-    items = [('matrix',), ('smoke',)]
-    for sc in scenarios:
-        b = bounds(ctx.tier, sc)
-        for first in range(len(sc['threads'])):           # partition of the schedule tree by first decision
-            items.append(('explore', sc['name'], ctx.tier, b, [first], ctx.seed))
-    items = ctx.shuffled(items)
-    results = ctx.pmap(job, items)
-    agg = dict(executions=0, edges=0, outcomes=0, switch_exec=0, path_diff=0, both_inval=0)
-    per, by_pre, described = {}, {}, None
-    for it, r in zip(items, results):
+    bound = dict((sc['name'], bounds(ctx.tier, sc)) for sc in scenarios)
+    agg = dict(executions=0, edges=0, switch_exec=0, path_diff=0, both_inval=0, cpu=0.0)
+    per, by_pre, described, outcomes = {}, {}, None, {}
+    def take(r):
         core.absorb(ctx, r['sub'])
-        if it[0] != 'explore': continue
-        described = r['described']
-        agg['executions'] += r['executions']; agg['edges'] += r['edges']
+        if 'executions' not in r: return
+        agg['executions'] += r['executions']; agg['edges'] += r['edges']; agg['cpu'] += r['cpu']
         for k in ('switch_exec', 'path_diff', 'both_inval'): agg[k] += r['stats'][k]
-        p = per.setdefault(r['name'], dict(executions=0, distinct_outcomes=0, bound=it[3], cpu_s=0.0, longest_trace=0))
+        p = per.setdefault(r['name'], dict(executions=0, bound=bound[r['name']], cpu_s=0.0, longest_trace=0))
         p['executions'] += r['executions']; p['cpu_s'] = round(p['cpu_s'] + r['cpu'], 2)
-        p['distinct_outcomes'] = max(p['distinct_outcomes'], r['outcomes'])
         p['longest_trace'] = max(p['longest_trace'], r['stats']['points'])
+        outcomes.setdefault(r['name'], set()).update(r['outcomes'])
         for k, v in r['by_pre'].items(): by_pre[int(k)] = by_pre.get(int(k), 0) + v
-    agg['outcomes'] = sum(p['distinct_outcomes'] for p in per.values())
+    # phase 1: matrix, smoke pass, and the first-level executions of every scenario
+    items = ctx.shuffled([('matrix',), ('smoke',)] + [('expand', sc['name'], bound[sc['name']]) for sc in scenarios])
+    work = []
+    for it, r in zip(items, ctx.pmap(job, items)):
+        take(r)
+        if it[0] != 'expand': continue
+        described = r['described']
+        sc = scenario_by_name(it[1])
+        children = ctx.shuffled(sorted(r['children'], key=lambda c: (c[0], c[1])))
+        m = chunks_for(ctx.tier, sc, it[2])
+        for j in range(m):
+            part = children[j::m]
+            if part: work.append(('explore', it[1], it[2], part))
+    # phase 2: the subtrees
+    work.sort(key=lambda it: -len(it[3]) * (30 ** it[2]))        # biggest first
+    for r in ctx.pmap(job, work): take(r)
+    for name, p in per.items(): p['distinct_outcomes'] = len(outcomes[name])
+    n_out = sum(p['distinct_outcomes'] for p in per.values())
     ctx.cov['per_scenario'] = per
     ctx.cov['executions_by_preemptions'] = dict(sorted(by_pre.items()))
     ctx.cov['scheduling_points'] = described
-    ctx.cov['distinct_outcomes'] = agg['outcomes']
+    ctx.cov['distinct_outcomes'] = n_out
+    ctx.cov['cpu_s'] = round(agg['cpu'], 1)
     ctx.cov['bounds'] = ('2 threads: preemption bound %s for stale-translator scenarios, %s for cold-cache races'
                          % (('2', '1') if ctx.quick else ('3', '2'))) + \
                         ('' if ctx.quick else '; 3 threads: bound 2 (stale) / 1 (cold)')
@@ -374,7 +409,7 @@ def run(ctx):
     ctx.guard('schedules with a thread switch inside a cache function', agg['switch_exec'], 500)
     ctx.guard('schedules in which a thread took another path than alone (saw the other thread\'s cache entries)', agg['path_diff'], 100)
     ctx.guard('schedules in which two threads both reached the stale-translator drop', agg['both_inval'], 10)
-    ctx.guard('distinct outcomes', agg['outcomes'], len(per))
+    ctx.guard('distinct outcomes', n_out, len(per))
     ctx.guard('cross-session matrix cases refused', ctx.counters.get('matrix_refused', 0), 5)
     ctx.guard('smoke iterations', ctx.counters.get('smoke_iterations', 0), 800)
     ctx.assume('granularity: a thread switch is forced only between source lines of the listed Pony functions '
